@@ -1,0 +1,14 @@
+//go:build verif
+
+// Contracts for package calculator/errors (comment-only; read by /verif's VC generator).
+package errors
+
+// every syntax / expression error carries the given error code
+//@ func NewSyntaxError
+//@   ensures[C02,C03] fresh(result) && result != nil && result.Code == code
+//@   assigns nothing
+//@   nopanic
+//@ func NewExpressionError
+//@   ensures[C03] fresh(result) && result != nil && result.Code == code
+//@   assigns nothing
+//@   nopanic
